@@ -5,7 +5,7 @@
 # a VIOLATION with a failing input.  Patches that no longer apply to HEAD are reported as such.
 WT=$1; shift
 cd "$(dirname "$0")/.."
-IDS=${@:-$(ls harmless | grep '\.diff$' | sed 's/\.diff$//')}
+IDS=${@:-$(ls harmless | grep '\.diff$' | grep -v rebased | sed 's/\.diff$//')}
 for id in $IDS; do
   P=${id%-*}
   git -C $WT checkout -q -- . ; git -C $WT clean -fdq
